@@ -180,6 +180,9 @@ func c20Run(c c20Case, w *c20World, v1 bool, rec *vh.Recorder) error {
 
 	top, err := cgroup.New(prefix, ct)
 	if err != nil {
+		if v1 && c.Ctrl != "" {
+			return vh.Violf("C20:new-failed-for-controller-subset", "cgroup.New(%s, {%s}) on hierarchies that all exist: %v", prefix, c.Ctrl, err)
+		}
 		return vh.Infraf("cgroup.New(%s): %v", prefix, err)
 	}
 	handles := []*c20Handle{{cg: top, path: prefix, created: true}}
@@ -261,7 +264,10 @@ func c20Run(c c20Case, w *c20World, v1 bool, rec *vh.Recorder) error {
 			if _, any := w.exists(rel); any {
 				continue
 			}
-			for _, ctrl := range []string{"memory", "pids"} {
+			if len(w.ctrls) < 2 {
+				continue // a single hierarchy cannot hold a group "partially"
+			}
+			for _, ctrl := range w.ctrls[len(w.ctrls)-min(2, len(w.ctrls)-1):] {
 				if err := os.Mkdir(w.dir(ctrl, rel), 0o755); err != nil {
 					return vh.Infraf("external mkdir: %v", err)
 				}
